@@ -295,7 +295,23 @@ def programs_for(draw, basis, nthreads=None, same_target=False):
         for _ in range(draw(st.integers(1, 3))):
             kind = draw(st.sampled_from(["count", "count", "of_length", "in", "up_to", "recreate_count"]))
             if kind == "in":
-                prog.append([kind, list(draw(gen.perms(1, nmax)))])
+                if draw(st.booleans()):
+                    prog.append([kind, list(draw(gen.perms(1, nmax)))])
+                else:
+                    # a one-point extension of a member of the class (new point towards the end
+                    # more often): a non-member then has few occurrences of basis patterns, at
+                    # particular places - the hard cases for any membership shortcut
+                    n = draw(st.integers(2, nmax))
+                    level = ref.av([_to_ref(b) for b in basis], n - 1)
+                    if level:
+                        m = list(draw(st.sampled_from(level)))
+                        i = draw(st.sampled_from([n - 1, n - 1, n - 2] + list(range(n)))) % n
+                        v = draw(st.integers(0, n - 1))
+                        ext = [w + 1 if w >= v else w for w in m]
+                        ext.insert(i, v)
+                        prog.append([kind, ext])
+                    else:
+                        prog.append([kind, list(draw(gen.perm_of(n)))])
             else:
                 prog.append([kind, draw(st.integers(1, nmax))])
         progs.append(prog)
@@ -338,8 +354,40 @@ def schedule_cases(draw, pct=False):
         spec = {"mode": "pct", "prio": list(prio), "changes": changes}
     else:
         spec = {"mode": "round_robin"}
+    if draw(st.integers(0, 3)) == 0:
+        # a deep build parked part-way (anywhere in its first ~1500 lines) while the other threads
+        # run to completion - among them a membership test for a near-member of the class
+        if draw(st.integers(0, 3)) != 0:
+            # classes that grow: one or two patterns of length 3-4
+            basis = [list(q) for q in draw(st.lists(gen.perms(3, 4), min_size=1, max_size=2))]
+            programs = draw(programs_for(basis))
+        nmax = NMAX_MESH if _is_mesh_basis(basis) else NMAX_CL
+        first = draw(st.integers(0, len(programs) - 1))
+        programs[first].insert(0, [draw(st.sampled_from(["count", "of_length", "up_to"])), nmax])
+        other = (first + 1 + draw(st.integers(0, len(programs) - 2))) % len(programs)
+        # the membership test: a non-member all of whose deletions of one of its last entries are
+        # members (its basis occurrences all sit at the very end) - or, failing that, a near-member
+        rb = [_to_ref(b) for b in basis]
+        hard = []
+        if not _is_mesh_basis(basis):
+            L = draw(st.integers(2, nmax))
+            k = max(len(b) for b in rb)
+            for m in ref.av(rb, L - 1)[:60]:
+                for i in range(max(0, L - 2), L):
+                    for v in range(L):
+                        ext = tuple(w + 1 if w >= v else w for w in m[:i]) + (v,) + tuple(w + 1 if w >= v else w for w in m[i:])
+                        if not ref.avoids_all(ext, rb) and all(ref.avoids_all(ref.delete_point(ext, j), rb) for j in range(max(0, L - k), L)):
+                            hard.append(list(ext))
+        if hard:
+            programs[other].insert(0, ["in", draw(st.sampled_from(hard))])
+        else:
+            near = [q for prog in draw(programs_for(basis, 3)) for q in prog if q[0] == "in"]
+            if near:
+                programs[other].insert(0, near[0])
+        spec = {"mode": "at_pause", "unit": "step", "first": first, "after": int(2 ** draw(st.floats(3, 11)))}
+        return {"basis": basis, "programs": programs, "schedule": spec, "precreate": True}
     precreate = draw(st.integers(0, 2)) != 0
-    if not precreate and draw(st.booleans()):
+    if not precreate and draw(st.integers(0, 3)) != 0:
         # park one thread within the first lines of its first call (the construction of the class)
         # while the others run to completion
         spec = {"mode": "at_pause", "unit": "step", "first": draw(st.integers(0, len(programs) - 1)), "after": draw(st.integers(1, 40))}
@@ -360,6 +408,6 @@ def shard_schedules(acc, shard, nshards, n_sched, n_stress, repeat, pct):
 
 def run(acc, tier):
     if tier == "quick":
-        engine.pmap(acc, shard_schedules, extra=(100, 3, 5, True))
+        engine.pmap(acc, shard_schedules, extra=(250, 3, 5, True))
     else:
         engine.pmap(acc, shard_schedules, extra=(3000, 60, 40, True))
